@@ -228,3 +228,43 @@ Proof.
       change (inject_Z 0) with 0 in *; change (inject_Z 1) with 1 in *; change (inject_Z (-1)) with (-1 # 1) in *; lra.
   - intros j Hj. replace j with 0%nat by lia. cbn. reflexivity.
 Qed.
+
+(* ---------- the repaired PR_2 entry points ---------- *)
+(* termination_templates.hh (fix-1-pr2-guard) hands to the builder, as "before", a system G denoting
+   pset_before /\ (exists x'. pset_after): the judge verifies [is_guard] on every case (tie-guard). *)
+Definition is_guard (n : nat) (B C G : list con) : Prop :=
+  forall x, sat_cons G x <->
+            (sat_cons B x /\ exists p, sat_cons C p /\ forall j, (j < n)%nat -> p (n + j)%nat == x j).
+
+Lemma is_guard_rel2 n B C G p : is_guard n B C G -> (rel2 n G C p <-> rel2 n B C p).
+Proof.
+  intros HG. unfold rel2. split; intros [H1 H2]; (split; [|exact H2]).
+  - apply (proj1 (HG _) H1).
+  - apply (proj2 (HG _)). split; [exact H1|]. exists p. split; [exact H2|]. intros j _. reflexivity.
+Qed.
+
+Theorem ms_pr2_agree n B C G :
+  all_ge B -> all_ge C -> all_ge G -> dimc n B -> dimc n G -> dimc (n + n) C -> is_guard n B C G ->
+  ((exists q, sat_cons (ms_mip n (joint n B C)) q) <-> (exists u, sat_cons (pr_mip n G C) u)).
+Proof.
+  intros GB GC GG DB DG DC HG.
+  assert (Hg : guard_in_before n G C).
+  { intros x Hx. destruct (proj1 (HG x) Hx) as [_ H]. exact H. }
+  rewrite <- (ms_pr2_agree_under_guard n G C GG GC DG DC Hg).
+  rewrite (ms_test_iff n (joint n B C) (joint_all_ge n B C GB GC) (joint_dimc n B C DB DC)).
+  rewrite (ms_test_iff n (joint n G C) (joint_all_ge n G C GG GC) (joint_dimc n G C DG DC)).
+  split; intros [q H]; exists q; intros p Hp; apply H; apply approximation_2_sat; apply approximation_2_sat in Hp.
+  - now apply (is_guard_rel2 n B C G p HG).
+  - now apply (is_guard_rel2 n B C G p HG).
+Qed.
+
+(* the hypothesis is satisfiable: B = universe, C = ex_after, G = { x >= 1 } *)
+Example ex_is_guard : is_guard 1 [] ex_after ex_before.
+Proof.
+  intros x. split.
+  - intros Hx. split; [intros c []|]. now apply ex_guard.
+  - intros [_ [p [Hp Hj]]]. intros c [<-|[]].
+    pose proof (Hp _ (or_introl eq_refl)) as H1. specialize (Hj 0%nat (Nat.lt_0_1)).
+    unfold sat_con, ceval, mkc in *; cbn [ckd ccoefs ccst dot Nat.add] in *.
+    change (inject_Z 0) with 0 in *; change (inject_Z 1) with 1 in *; change (inject_Z (-1)) with (-1 # 1) in *. lra.
+Qed.
